@@ -439,7 +439,20 @@ func genPath(t *rapid.T, o Opts) string {
 		pre = "/" + strings.Trim(o.Prefix, "/")
 	}
 	var b strings.Builder
-	switch rapid.IntRange(0, 9).Draw(t, "prek") {
+	switch rapid.IntRange(0, 11).Draw(t, "prek") {
+	case 10: // look-alike: the prefix in another letter case, in front of a path that exists
+		if pre != "" {
+			alt := strings.ToUpper(pre)
+			if rapid.Bool().Draw(t, "title") {
+				alt = pre[:1] + strings.ToUpper(pre[1:2]) + pre[2:]
+			}
+			return alt + targets[rapid.IntRange(0, len(targets)-1).Draw(t, "tgcase")]
+		}
+	case 11: // look-alike: a character of the prefix that means something in a pattern, replaced
+		if i := strings.IndexAny(pre, ".+*?()[]"); i >= 0 {
+			alt := pre[:i] + []string{"X", "-", "/", "_"}[rapid.IntRange(0, 3).Draw(t, "sub")] + pre[i+1:]
+			return alt + targets[rapid.IntRange(0, len(targets)-1).Draw(t, "tgmeta")]
+		}
 	case 0: // no prefix at all
 	case 1: // look-alike: the prefix glued to a name
 		b.WriteString(pre)
@@ -472,7 +485,7 @@ var targets = []string{"/a.txt", "/", "/sub", "/sub/", "/sub/b.txt", "/sub/deep/
 func genCase(t *rapid.T) Case {
 	var c Case
 	c.Opts = Opts{
-		Prefix:       []string{"", "", "p", "/p", "/p/", "p/q", "/public", "sub", "/", "//"}[rapid.IntRange(0, 9).Draw(t, "prefix")],
+		Prefix:       []string{"", "", "p", "/p", "/p/", "p/q", "/public", "sub", "/", "//", "/p.q", "/v1.0", "/a+b", "/(p)"}[rapid.IntRange(0, 13).Draw(t, "prefix")],
 		Index:        []string{"", "", "home.htm", "index.html", "b.txt"}[rapid.IntRange(0, 4).Draw(t, "index")],
 		ETag:         rapid.Bool().Draw(t, "etag"),
 		Expires:      rapid.Bool().Draw(t, "expires"),
